@@ -263,7 +263,22 @@ class C17(Prop):
             for s in p["path"]:
                 if s[0] == "c" and s[1] not in fn_args and all(a[0] in ("int", "bytes") for a in s[1]):
                     fn_args.append(s[1])
-        return {"asset": path, "kind": kind, "mutation": mkind, "fn_args": fn_args, "what": what, "edits": edits, "process_memory": pm,
+        # user data through the public API (Scanner::set_module_data): pe.is_signed is then taken from PeData; the
+        # console callback can be overridden per scan.  The published value must still have its declared type and a
+        # rule must be able to consume it as such.
+        user_data = {}
+        if kind in ("pe", "other") and rng.chance(1, 2) or (pristine and "/pe/" in path):
+            c = rng.below(5)
+            if c < 4:
+                user_data["pe_is_signed"] = c % 2 == 0
+            else:
+                user_data["pe_is_signed_none"] = True
+            for k, (txt, pth) in enumerate([("pe.is_signed", [["f", "is_signed"]]),
+                                            ("pe.number_of_signatures", [["f", "number_of_signatures"]])]):
+                probes.append({"module": "pe", "path": pth, "text": txt, "tag": "u%d" % k})
+        if rng.chance(1, 3):
+            user_data["console_override"] = True
+        return {"asset": path, "kind": kind, "mutation": mkind, "fn_args": fn_args, "user_data": user_data, "what": what, "edits": edits, "process_memory": pm,
                 "layout": layout, "modules": FILE_MODULES, "probes": probes, "keep": keep, "keep_dict": 64,
                 "keep_bytes": 24, "shifts": shifts}
 
@@ -352,6 +367,7 @@ class C17(Prop):
                 continue
             h = {k: c[k] for k in ("asset", "edits", "process_memory", "layout", "modules", "keep", "keep_dict", "keep_bytes")}
             h["shifts"] = c.get("shifts", [])
+            h["user_data"] = c.get("user_data", {})
             h["op"] = "scan"
             h["probes"] = [{"tag": p["tag"], "imports": [p["module"]], "use": p["text"],
                             "rule": 'console.log("%s=", %s)' % (p["tag"], p["text"])} for p in c["probes"]]
@@ -368,6 +384,8 @@ class C17(Prop):
             ctx.count("kind=" + c["kind"])
             ctx.count("mutation=" + c["mutation"])
             ctx.count("process_memory=%s" % c["process_memory"])
+            for k, v in sorted(c.get("user_data", {}).items()):
+                ctx.count("user_data:%s=%s" % (k, v))
             ctx.count("layout=" + ("contiguous" if c["layout"] is None else "%d regions" % len(c["layout"])))
             for m, d in o["dumps"].items():
                 if len(d.get("o", [])) > 1:
